@@ -67,6 +67,20 @@ class Engine(ExprMixin, StmtMixin, CallMixin, EngineBase):
         st = State()
         env = {}
         params = [a.arg for a in fdef.args.args]
+        body = fdef.body
+        frag = c.extra.get('fragment')
+        if frag:
+            # a contract on a fragment of a long function: the statements from `start` up to (excluding) `end`,
+            # every free variable is a declared parameter of the fragment (arbitrary value of its type)
+            heads = [ast.unparse(n).split('\n')[0].strip() for n in fdef.body]
+            try:
+                i0 = next(i for i, h in enumerate(heads) if h.startswith(frag['start']))
+                i1 = next(i for i, h in enumerate(heads) if i > i0 and h.startswith(frag['end'])) if frag.get('end') \
+                    else len(fdef.body)
+            except StopIteration:
+                raise ContractError("%s: fragment anchors %r do not resolve" % (qual, frag))
+            body = fdef.body[i0:i1]
+            params = list(c.params)
         is_method = len(qual.split('.')) == 3 and params and params[0] == 'self'
         for p in params:
             if is_method and p == 'self':
@@ -87,7 +101,7 @@ class Engine(ExprMixin, StmtMixin, CallMixin, EngineBase):
             z = self.ev_spec(r, st)
             st.assume(z, qf=not self.has_quant(z))
         st.snapshot('old')
-        outs = self.exec_block(fdef.body, st)
+        outs = self.exec_block(body, st)
         self.stats['paths'] += len(outs)
         self.last_paths = len(outs)
         canary_done = False
@@ -136,6 +150,26 @@ class Engine(ExprMixin, StmtMixin, CallMixin, EngineBase):
         self.lemma_obligations.append(ob)
         if ob.status == 'proved':
             self.axioms.append(axiom)
+        return ob
+
+    def prove_string_lemma(self, name, claim, axiom, props=()):
+        """leaf lemma about characters: `claim` (z3 sequence theory, free String constants) is proved, then
+        `axiom` (the same fact over the uninterpreted string functions used in the function proofs) is available."""
+        from .strlemma import prove_string_fact
+        ob = Obligation('lemma/%s' % name, 'lemma', 'lemma', name, [], z3.BoolVal(True), '', None, props)
+        ok, backend, secs = prove_string_fact(claim, self.timeout_ms)
+        ob.status, ob.backend, ob.time = ('proved' if ok else 'unknown'), backend, secs
+        ob.detail = '' if ok else 'string lemma not proved: %s' % claim
+        self.lemma_obligations.append(ob)
+        if ok:
+            self.axioms.append(axiom)
+        return ob
+
+    def syntactic_obligation(self, name, holds, detail='', props=()):
+        """an obligation decided on the AST of the real source (read sets, statement order); no solver involved."""
+        ob = Obligation('syntactic/%s' % name, 'syntactic', 'syntactic', name, [], z3.BoolVal(bool(holds)), '', None, props)
+        ob.status, ob.backend, ob.time, ob.detail = ('proved' if holds else 'failed'), 'ast', 0.0, detail
+        self.lemma_obligations.append(ob)
         return ob
 
     def adapt_result(self, res, t, st):
